@@ -11,6 +11,8 @@ open ErgoVerif ErgoVerif.Event
 
 /-- the code as it is: does a subscriber's termination update the counter (regenerated) -/
 abbrev dc : Bool := Gen.Event.terminationUpdatesCounter
+/-- the code as it is: does the publication fan-out serve each consumer once (regenerated) -/
+abbrev dd : Bool := Gen.Event.publishDedupes
 
 /-- invariants for every history: relations are distinct, the replay buffer is the tail of the publications -/
 def Inv (e : Ev) : Prop :=
@@ -41,7 +43,7 @@ theorem pushLast_spec (cap : Nat) (last pub : List Nat) (m : Nat)
       refine ⟨by simp; omega, ⟨pre, by rw [hpre]; simp⟩, ?_⟩
       intro _; rw [h3 hl]
 
-theorem step_inv (b : Bool) (e : Ev) (o : Op) (h : Inv e) : Inv (step b e o).1 := by
+theorem step_inv (b d : Bool) (e : Ev) (o : Op) (h : Inv e) : Inv (step b d e o).1 := by
   obtain ⟨hnd, hcap, hpre, hsmall⟩ := h
   cases o with
   | register tok notify cap =>
@@ -79,79 +81,140 @@ theorem step_inv (b : Bool) (e : Ev) (o : Op) (h : Inv e) : Inv (step b e o).1 :
     · exact ⟨hnd, hcap, hpre, hsmall⟩
     · simp [Inv, Ev.init]
 
-theorem run_inv (b : Bool) : ∀ (ops : List Op) (e : Ev), Inv e → Inv (runOps b e ops) := by
+theorem run_inv (b d : Bool) : ∀ (ops : List Op) (e : Ev), Inv e → Inv (runOps b d e ops) := by
   intro ops
   induction ops with
   | nil => intro e h; exact h
-  | cons o os ih => intro e h; exact ih _ (step_inv b e o h)
+  | cons o os ih => intro e h; exact ih _ (step_inv b d e o h)
 
 /-- number of subscriptions process c holds (0, 1 or 2: link and monitor are separate relations) -/
 def subsOf (e : Ev) (c : Nat) : Nat := (e.subs.filter (fun s => s.1 = c)).length
 
-/-- **Fan-out.** In any reachable state a publication with the right token is delivered to a process once per
-subscription it holds, to nobody else, and is recorded; a wrong token is refused and changes nothing. -/
-theorem C18_publish (ops : List Op) (tok m c : Nat) :
-    let e := runOps dc Ev.init ops
+/-- the `delivered` set of the fan-out loop: a consumer not seen yet is served exactly once if it is listed at all -/
+theorem count_dedupAux (c : Nat) : ∀ (l seen : List Nat),
+    (dedupAux seen l).count c = if c ∈ seen then 0 else if c ∈ l then 1 else 0 := by
+  intro l
+  induction l with
+  | nil => intro seen; simp [dedupAux]
+  | cons a l ih =>
+    intro seen
+    simp only [dedupAux]
+    by_cases ha : a ∈ seen
+    · simp only [ha, if_true]
+      rw [ih seen]
+      by_cases hc : c ∈ seen
+      · simp [hc]
+      · have : c ≠ a := fun h => hc (h ▸ ha)
+        simp [hc, this]
+    · simp only [ha, if_false]
+      rw [List.count_cons, ih (a :: seen)]
+      by_cases hca : c = a
+      · subst hca; simp [ha]
+      · have hac : a ≠ c := fun h => hca h.symm
+        by_cases hc : c ∈ seen
+        · simp [hc, hca, hac]
+        · simp [hc, hca, hac]
+
+theorem count_fanout (d : Bool) (c : Nat) (l : List Nat) :
+    (fanout d l).count c = if d then (if c ∈ l then 1 else 0) else l.count c := by
+  unfold fanout
+  cases d
+  · simp
+  · simp [count_dedupAux]
+
+/-- what the TargetManager lists for the event: one entry per relation -/
+theorem count_consumers (e : Ev) (c : Nat) : (e.subs.map (·.1)).count c = subsOf e c := by
+  unfold subsOf
+  rw [List.count_eq_countP, List.countP_map, List.countP_eq_length_filter]
+  congr 1
+
+theorem mem_consumers (e : Ev) (c : Nat) : c ∈ e.subs.map (·.1) ↔ 1 ≤ subsOf e c := by
+  rw [← count_consumers, List.one_le_count_iff]
+
+/-- **Fan-out, parametric in the dedupe flag.** In any reachable state a publication with the right token is recorded
+and delivered: to every process holding a subscription — once when the loop keeps a `delivered` set, once per
+relation otherwise — and to nobody else; a wrong token is refused and changes nothing. -/
+theorem publish_spec (b d : Bool) (e : Ev) (tok m c : Nat) :
     (e.registered = true → tok = e.token →
-        ∃ to, (step dc e (.publish tok m)).2 = .delivered to ∧ to.count c = subsOf e c ∧
-          (step dc e (.publish tok m)).1.published = e.published ++ [m]) ∧
-    (e.registered = true → tok ≠ e.token → step dc e (.publish tok m) = (e, .errOwner)) := by
-  intro e
+        ∃ to, (step b d e (.publish tok m)).2 = .delivered to ∧
+          to.count c = (if d then (if 1 ≤ subsOf e c then 1 else 0) else subsOf e c) ∧
+          (step b d e (.publish tok m)).1.published = e.published ++ [m]) ∧
+    (e.registered = true → tok ≠ e.token → step b d e (.publish tok m) = (e, .errOwner)) := by
   constructor
   · intro hr ht
-    refine ⟨e.subs.map (·.1), by simp [step, hr, ht], ?_, by simp [step, hr, ht]⟩
-    unfold subsOf
-    rw [List.count_eq_countP, List.countP_map, List.countP_eq_length_filter]
-    congr 1
+    refine ⟨fanout d (e.subs.map (·.1)), by simp [step, hr, ht], ?_, by simp [step, hr, ht]⟩
+    rw [count_fanout, count_consumers]
+    cases d
+    · simp
+    · simp only [if_true]
+      by_cases h : c ∈ e.subs.map (·.1)
+      · have := (mem_consumers e c).1 h; simp [h, this]
+      · have : ¬ 1 ≤ subsOf e c := fun h' => h ((mem_consumers e c).2 h')
+        simp [h, this]
   · intro hr ht
     simp [step, hr, ht]
 
-/-- the full "exactly once" statement: a subscribed process receives each publication exactly once -/
-def C18_exactly_once_full : Prop :=
-  ∀ (ops : List Op) (tok m c : Nat),
-    let e := runOps dc Ev.init ops
-    e.registered = true → tok = e.token → subsOf e c ≥ 1 →
-    ∀ to, (step dc e (.publish tok m)).2 = .delivered to → to.count c = 1
+/-- **Fan-out for the code as it is.** -/
+theorem C18_publish (ops : List Op) (tok m c : Nat) :
+    let e := runOps dc dd Ev.init ops
+    (e.registered = true → tok = e.token →
+        ∃ to, (step dc dd e (.publish tok m)).2 = .delivered to ∧
+          to.count c = (if 1 ≤ subsOf e c then 1 else 0) ∧
+          (step dc dd e (.publish tok m)).1.published = e.published ++ [m]) ∧
+    (e.registered = true → tok ≠ e.token → step dc dd e (.publish tok m) = (e, .errOwner)) := by
+  intro e
+  have hdd : dd = true := by decide
+  have := publish_spec dc dd e tok m c
+  rw [hdd] at this ⊢
+  simpa using this
 
-/-- it is false for the code as it is: a process that subscribed by link *and* by monitor holds two relations
-and receives every publication twice (defect D20) -/
-theorem C18_exactly_once_counterexample : ¬ C18_exactly_once_full := by
+/-- the full "exactly once" statement: a subscribed process receives each publication exactly once -/
+def C18_exactly_once_full (d : Bool) : Prop :=
+  ∀ (ops : List Op) (tok m c : Nat),
+    let e := runOps dc d Ev.init ops
+    e.registered = true → tok = e.token → subsOf e c ≥ 1 →
+    ∀ to, (step dc d e (.publish tok m)).2 = .delivered to → to.count c = 1
+
+/-- The code before the repair of D20 (fan-out per relation, no `delivered` set): a process that subscribed by link
+*and* by monitor holds two relations and received every publication twice. Kept as a regression statement. -/
+theorem C18_D20_before_fix : ¬ C18_exactly_once_full false := by
   intro h
-  have := h [.register 7 false 0, .sub 1 false, .sub 1 true] 7 42 1 rfl rfl (by decide) [1, 1] rfl
+  have := h [.register 7 false 0, .sub 1 false, .sub 1 true] 7 42 1 rfl rfl (by decide) [1, 1] (by decide)
   simp at this
 
-/-- **Exactly once, for processes holding one subscription** (the strongest statement the code supports) -/
-theorem C18_exactly_once_partial (ops : List Op) (tok m c : Nat) :
-    let e := runOps dc Ev.init ops
-    e.registered = true → tok = e.token → subsOf e c = 1 →
-    ∀ to, (step dc e (.publish tok m)).2 = .delivered to → to.count c = 1 := by
-  intro e hr ht hs to hto
+/-- **Exactly once, for the code as it is**: whatever subscriptions a process holds (link, monitor or both), it
+receives each accepted publication exactly once. -/
+theorem C18_exactly_once : C18_exactly_once_full dd := by
+  intro ops tok m c e hr ht hs to hto
   obtain ⟨to', h1, h2, _⟩ := (C18_publish ops tok m c).1 hr ht
-  rw [h1] at hto
-  cases hto
-  rw [h2, hs]
+  have h : Out.delivered to' = Out.delivered to := h1.symm.trans hto
+  cases h
+  rw [h2]
+  have : 1 ≤ subsOf (runOps dc dd Ev.init ops) c := hs
+  rw [if_pos this]
 
 /-- and a process without a subscription (never subscribed, unsubscribed, or dead) receives nothing -/
 theorem C18_no_subscription (ops : List Op) (tok m c : Nat) :
-    let e := runOps dc Ev.init ops
+    let e := runOps dc dd Ev.init ops
     e.registered = true → tok = e.token → subsOf e c = 0 →
-    ∀ to, (step dc e (.publish tok m)).2 = .delivered to → c ∉ to := by
+    ∀ to, (step dc dd e (.publish tok m)).2 = .delivered to → c ∉ to := by
   intro e hr ht hs to hto
   obtain ⟨to', h1, h2, _⟩ := (C18_publish ops tok m c).1 hr ht
-  rw [h1] at hto
-  cases hto
-  rw [hs] at h2
-  exact List.count_eq_zero.mp h2
+  have h : Out.delivered to' = Out.delivered to := h1.symm.trans hto
+  cases h
+  have h0 : subsOf (runOps dc dd Ev.init ops) c = 0 := hs
+  rw [h0] at h2
+  exact List.count_eq_zero.mp (by simpa using h2)
 
 /-- **Snapshot.** A new subscriber is handed the last `min(N, #publications)` publications, in publication order:
 the replay buffer is always a suffix of the publication sequence, of length at most N, and the whole sequence
 while fewer than N were published. -/
 theorem C18_snapshot (ops : List Op) (c : Nat) (mon : Bool) (snap : List Nat) (note : Option Note) :
-    let e := runOps dc Ev.init ops
-    (step dc e (.sub c mon)).2 = .subscribed snap note →
+    let e := runOps dc dd Ev.init ops
+    (step dc dd e (.sub c mon)).2 = .subscribed snap note →
     snap.length ≤ e.cap ∧ (∃ pre, e.published = pre ++ snap) ∧ (snap.length < e.cap → snap = e.published) := by
   intro e hs
-  have hi := run_inv dc ops Ev.init inv_init
+  have hi := run_inv dc dd ops Ev.init inv_init
   simp only [step] at hs
   split at hs
   · cases hs
@@ -163,13 +226,13 @@ theorem C18_snapshot (ops : List Op) (c : Nat) (mon : Bool) (snap : List Nat) (n
 
 /-- **Unregistration / owner death**: every relation on the event gets exactly one notification of its kind. -/
 theorem C18_unregister (ops : List Op) (c : Nat) :
-    let e := runOps dc Ev.init ops
+    let e := runOps dc dd Ev.init ops
     e.registered = true →
-    ∃ ex dn, (step dc e .unregister).2 = .gone ex dn ∧
+    ∃ ex dn, (step dc dd e .unregister).2 = .gone ex dn ∧
       ex.count c = (if (c, false) ∈ e.subs then 1 else 0) ∧ dn.count c = (if (c, true) ∈ e.subs then 1 else 0) ∧
-      (step dc e .unregister).1.subs = [] := by
+      (step dc dd e .unregister).1.subs = [] := by
   intro e hr
-  have hnd : e.subs.Nodup := (run_inv dc ops Ev.init inv_init).1
+  have hnd : e.subs.Nodup := (run_inv dc dd ops Ev.init inv_init).1
   have key : ∀ (b : Bool), ((e.subs.filter (fun s => s.2 == b)).map (·.1)).count c = if (c, b) ∈ e.subs then 1 else 0 := by
     intro b
     rw [List.count_eq_countP, List.countP_map, List.countP_filter, List.countP_eq_length_filter]
@@ -187,8 +250,8 @@ theorem C18_unregister (ops : List Op) (c : Nat) :
 /-- the full statement about producer notifications: `start` exactly when the first live subscription arrives -/
 def C18_notify_full (b : Bool) : Prop :=
   ∀ (ops : List Op) (c : Nat) (mon : Bool) (snap : List Nat) (note : Option Note),
-    let e := runOps b Ev.init ops
-    e.notify = true → (step b e (.sub c mon)).2 = .subscribed snap note → (note = some .start ↔ e.live = 0)
+    let e := runOps b dd Ev.init ops
+    e.notify = true → (step b dd e (.sub c mon)).2 = .subscribed snap note → (note = some .start ↔ e.live = 0)
 
 /-- The code before the repair of D21 (the counter is not decremented when a subscriber terminates): the next first
 subscriber produces no `start`. Kept as a regression statement. -/
@@ -206,14 +269,14 @@ theorem length_filter_split {α : Type} (p : α → Bool) (l : List α) :
 /-- the counter is the number of live subscriptions, for every history — subscriber deaths included when the
 termination path updates it -/
 theorem counter_eq_live (b : Bool) : ∀ (ops : List Op) (e : Ev), (b = false → ∀ o ∈ ops, ∀ c, o ≠ Op.consumerDies c) →
-    e.subs.Nodup → e.counter = e.live → (runOps b e ops).counter = (runOps b e ops).live := by
+    e.subs.Nodup → e.counter = e.live → (runOps b dd e ops).counter = (runOps b dd e ops).live := by
   intro ops
   induction ops with
   | nil => intro e _ _ h; exact h
   | cons o os ih =>
     intro e hno hnd h
     have hno' : b = false → ∀ o' ∈ os, ∀ c, o' ≠ Op.consumerDies c := fun hb o' ho' => hno hb o' (by simp [ho'])
-    have hnd' : (step b e o).1.subs.Nodup := by
+    have hnd' : (step b dd e o).1.subs.Nodup := by
       cases o with
       | register tok n c => simp only [step]; split <;> simp_all [Ev.init]
       | publish tok m => simp only [step]; split <;> (try split) <;> simp_all
@@ -290,14 +353,14 @@ theorem C18_notify : C18_notify_full dc := by
         simp [hc0]
 
 /-- and `stop` when the last live subscription goes, by unsubscribing or by the subscriber's death -/
-theorem C18_counter (ops : List Op) : (runOps dc Ev.init ops).counter = (runOps dc Ev.init ops).live := by
+theorem C18_counter (ops : List Op) : (runOps dc dd Ev.init ops).counter = (runOps dc dd Ev.init ops).live := by
   have hdc : dc = true := by decide
   rw [hdc]
   exact counter_eq_live true ops Ev.init (by intro h; cases h) (by simp [Ev.init]) (by simp [Ev.init, Ev.live])
 
 /-- non-vacuity: a history with two subscribers, a buffer of 2 and four publications -/
 example :
-    let e := runOps true Ev.init [.register 7 true 2, .sub 1 false, .publish 7 10, .publish 7 11, .publish 7 12, .sub 2 true]
+    let e := runOps true true Ev.init [.register 7 true 2, .sub 1 false, .publish 7 10, .publish 7 11, .publish 7 12, .sub 2 true]
     e.last = [11, 12] ∧ e.published = [10, 11, 12] ∧ e.counter = 2 := by decide
 
 end ErgoVerif.Props.C18
